@@ -592,6 +592,15 @@ def check_closure_letters(facts, rep):
     if src is None:
         rep.indet('E7.T11: source of the crossing loop of Braid::closure not found')
         return
+    # order- and length-preserving adapters between the word and the loop
+    while src[0] == 'call' and src[1].split('::')[-1] in ('enumerate', 'iter', 'into_iter', 'copied', 'cloned', 'by_ref', 'as_slice', 'deref') and len(src[2]) == 1:
+        src = strip(src[2][0])
+    if src[0] == 'adt' and src[1].endswith('Range') and len(src) == 5 and dict(zip(src[3], src[4])).get('start') == ('const', 0):
+        end = strip(dict(zip(src[3], src[4])).get('end'))
+        if end[0] == 'call' and end[1].split('::')[-1] == 'len' and len(end[2]) == 1:
+            inner = strip(end[2][0])
+            # 0..self.elements.len() / 0..self.len(): one index per letter
+            src = inner if (inner[0] == 'field' and inner[2] == 'elements') else (('field', inner, 'elements') if inner == ('arg', 1) else src)
     if not (src[0] == 'field' and src[2] == 'elements'):
         rep.indet('E7.T11: the crossing loop of Braid::closure runs over %s' % show(src, -1000)[:80])
         return
